@@ -7,9 +7,11 @@
   `checkMinimized A A'` that decides whether a candidate result `A'` (in practice: what the real
   `minimize()` returned for `A`) is a correct minimization of `A`.  `Props/C04.lean` proves what
   `checkMinimized A A' = true` implies; the correspondence run feeds every output of the real
-  `minimize` to the checker.  `Partition::refine_block(_with_fun)`, the only part of the
-  minimizer's data structures with a simple contract, is modelled faithfully in
-  `Model/Partition.lean`.
+  `minimize` to the checker.  `Partition::refine_block(_with_fun)` is modelled faithfully in
+  `Model/Partition.lean`; Hopcroft's algorithm itself (`minimizer.rs`, `fast_sets.rs`,
+  `StateMapping::from_partition`, the call sequence of `minimize`) is modelled line by line in
+  `Model/Hopcroft.lean` / `Model/FastSet.lean` and proved against the specification of this file
+  (`Props/C04.lean`: `hopcroft_correct`, `minimize_model_passes_check`).
 
   * `wfAut A`          decidable well-formedness = "complete DFA as the crate hands them out":
                        `num_states` = length of the state array, `id` = index, every per-state
